@@ -5,6 +5,7 @@ table and the run on nodes it tabulates.
 -/
 import GT.Model.CoxAut
 import Mathlib.Data.List.Basic
+import Mathlib.GroupTheory.Coxeter.Basic
 
 namespace GT.CoxAut
 
@@ -478,5 +479,19 @@ theorem even_follow (A : Table) (rank : Nat) (hA : ∀ row ∈ A, row.length ≤
       rcases hI.closed v hv p t hs with h | h
       · exact ih t h
       · cases h
+
+theorem altFrom_eq {B : Type} (a b : B) (m : Nat) :
+    altFrom a b m = if Even m then CoxeterSystem.alternatingWord a b m
+      else CoxeterSystem.alternatingWord b a m := by
+  induction m generalizing a b with
+  | zero => simp [altFrom, CoxeterSystem.alternatingWord]
+  | succ m ih =>
+    rw [altFrom, ih b a]
+    by_cases hm : Even m
+    · have : ¬ Even (m + 1) := by simpa [Nat.even_add_one] using hm
+      rw [if_pos hm, if_neg this, CoxeterSystem.alternatingWord_succ', if_pos hm]
+    · have : Even (m + 1) := by simpa [Nat.even_add_one] using hm
+      rw [if_neg hm, if_pos this, CoxeterSystem.alternatingWord_succ', if_neg hm]
+
 
 end GT.CoxAut
